@@ -28,11 +28,14 @@ def taglink(o: 'model.Documentable', page_url: str,
         always generate full urls that includes the filename.
     @param label: The label to use for the link
     """
-    if not o.isVisible:
-        o.system.msg("html", "don't link to %s"%o.fullName())
-
     if label is None:
         label = o.fullName()
+
+    if not o.isVisible:
+        o.system.msg("html", "don't link to %s"%o.fullName())
+        # Hidden objects have no page and no anchor: a link to them would be dead,
+        # so only the label is rendered.
+        return tags.transparent(label)
 
     url = o.url
     if page_url and url.startswith(page_url + '#'):
